@@ -35,6 +35,7 @@ type State struct {
 	seen  map[string]bool // dedupe of read-time range assumptions
 	held  map[string]bool // lock tokens held
 	ghost map[string]Val
+	calls []string // names of the functions called so far on this path
 }
 
 func newState() *State {
@@ -44,7 +45,7 @@ func newState() *State {
 func (s *State) clone() *State {
 	n := &State{vars: make(map[types.Object]Val, len(s.vars)), heap: make(map[string]string, len(s.heap)),
 		pc: append([]string(nil), s.pc...), seen: make(map[string]bool, len(s.seen)), held: make(map[string]bool, len(s.held)),
-		ghost: make(map[string]Val, len(s.ghost))}
+		ghost: make(map[string]Val, len(s.ghost)), calls: append([]string(nil), s.calls...)}
 	for k, v := range s.vars {
 		n.vars[k] = v
 	}
